@@ -65,6 +65,7 @@ type Exec struct {
 	inEntry   bool
 	assignRhs map[*ssa.Function]map[token.Pos]string
 	inHook   bool
+	clauseHit map[interface{}]bool
 	recvOk   *Term
 	allocs   []*Object
 	trustedUsed map[string]bool
@@ -80,7 +81,7 @@ type dryRun struct {
 func newExec(P *Program, fn *ssa.Function) *Exec {
 	return &Exec{P: P, E: newEngine(), fn: fn, c: P.contractFor(fn), labels: map[ssa.Instruction]string{}, labelled: map[*ssa.Function]bool{},
 		loops: map[*ssa.Function]map[*ssa.BasicBlock]*loopInfo{}, maxPaths: 6000, params: map[string]Val{}, inlineDepthMax: 6,
-		callsSeen: map[string]bool{}, trustedUsed: map[string]bool{}}
+		callsSeen: map[string]bool{}, trustedUsed: map[string]bool{}, clauseHit: map[interface{}]bool{}}
 }
 
 // installTypeInvariantHook makes every materialised struct of a type with
@@ -733,6 +734,23 @@ func (x *Exec) Run() {
 	s.top().k = func(s *State, ret Val) { x.atReturn(s, ret) }
 	x.collectInputs(s)
 	x.runBlock(s, x.fn.Blocks[0], nil)
+	// vacuity: a send / call clause that never applied checks nothing
+	if x.c != nil && len(x.errs) == 0 {
+		for _, oc := range x.c.OnSends {
+			if !x.clauseHit[oc] {
+				kind := "at-send"
+				if oc.Effect != nil {
+					kind = "on-send/on-recv"
+				}
+				x.errorf("%s clause for %s never applied on any path of %s (no matching channel operation)", kind, oc.ChanSrc, fnDisplay(x.fn))
+			}
+		}
+		for _, ac := range x.c.AtCalls {
+			if !x.clauseHit[ac] {
+				x.errorf("at-call clause %s [%s] never applied on any path of %s (no matching call)", ac.Callee, ac.Pred.Label, fnDisplay(x.fn))
+			}
+		}
+	}
 }
 
 func (x *Exec) collectInputs(s *State) {
@@ -1711,24 +1729,29 @@ func (x *Exec) onChanClauses(s *State, cv Val, v Val, site ssa.Instruction, recv
 		v    Val
 	}
 	var ups []upd
-	for _, os := range ct.OnSends {
-		if os.Recv != recv {
+	for _, oc := range ct.OnSends {
+		if oc.Recv != recv {
 			continue
 		}
-		tv, ok := env.eval(os.ChanExpr).(*ChanV)
+		ev := env.eval(oc.ChanExpr)
+		tv, ok := ev.(*ChanV)
+		if os.Getenv("GOVC_DEBUGCHAN") != "" {
+			fmt.Fprintf(os.Stderr, "onchan %s recv=%v eval=%T ok=%v same=%v\n", oc.ChanSrc, recv, ev, ok, ok && tv.Obj == c.Obj)
+		}
 		if !ok || tv.Obj != c.Obj {
 			continue
 		}
+		x.clauseHit[oc] = true
 		env.quiet = false
 		env.lets["elem"] = v
 		env.lets["ch"] = c
-		if os.Assert != nil {
-			t := env.evalBool(os.Assert.Expr)
-			x.oblige(s, "assert", fmt.Sprintf("%s@%s", os.Assert.Label, x.label(s, site)), t, site, os.Assert.Src)
+		if oc.Assert != nil {
+			t := env.evalBool(oc.Assert.Expr)
+			x.oblige(s, "assert", fmt.Sprintf("%s@%s", oc.Assert.Label, x.label(s, site)), t, site, oc.Assert.Src)
 			s.assume(t)
 		}
-		if os.Effect != nil {
-			if be, ok := os.Effect.Expr.(*ast.BinaryExpr); ok && be.Op == token.EQL {
+		if oc.Effect != nil {
+			if be, ok := oc.Effect.Expr.(*ast.BinaryExpr); ok && be.Op == token.EQL {
 				if id, ok := be.X.(*ast.Ident); ok && strings.HasPrefix(id.Name, "g_") {
 					ups = append(ups, upd{id.Name, env.eval(be.Y)})
 				}
